@@ -335,6 +335,20 @@ def opMmc (op : String) : P String := do
       return "ok " ++ Wire.render (mmcDObjective D w)
   | _ => throw s!"unknown op {op}"
 
+/-- C15: replay of SCML's stochastic loop on the recorded batches (Float twin) -/
+def opScml : P String := do
+  let nt ← nat; let nb ← nat; let maxIter ← nat; let batchSize ← nat; let outputIter ← nat
+  let β ← scalar Float; let γ ← scalar Float
+  let dd ← readStore Float nt nb
+  let ri ← natArr (maxIter * batchSize)
+  finish
+  if h : nt = 0 then throw "no triplets" else
+  let batches : List (List (Fin nt)) := (List.range maxIter).map fun it =>
+    (List.range batchSize).map fun j => ⟨ri.getD (it * batchSize + j) 0 % nt, Nat.mod_lt _ (Nat.pos_of_ne_zero h)⟩
+  let s := scmlRun β γ dd batchSize outputIter batches 0 (scmlInit nb)
+  let bo := match s.bestObj with | some b => Wire.render b | none => "none"
+  return s!"ok {bo} " ++ renderArr (s.bestW.toArray ++ s.w.toArray)
+
 def optInt : P (Option Int) := do
   let t ← next
   if t == "none" then return none
@@ -373,6 +387,7 @@ def dispatch : P String := do
   | "sdp_check" | "cfm_eig" | "cfm_diag" | "pinv_eig" | "init_metric" => opPsd op
   | "pairs" | "chunks" | "knn_class" | "knn_clip" => opConstraints op
   | "form" => opForm
+  | "scml_replay" => opScml
   | "mmc_budget" | "mmc_fd" | "mmc_gradproj" | "mmc_halfspace" | "mmc_psdproj" | "mmc_dobj" => opMmc op
   | "itml_run" => opItml
   | "cov" | "rca_inner" | "lfda_scatter" => opClosedForm op
